@@ -326,6 +326,12 @@ func genC06(r *core.Rand, run int) *MuxScenario {
 	}
 	sc.Reqs = []ReqSpec{sp}
 	fitLimits(sc)
+	// (after the limit has been fitted to everything else) one message that
+	// inflates beyond the limit from a frame below it
+	if strings.HasPrefix(tr.proto, "grpc") && sp.Compress && tr.codec == "proto" && sp.Method == "bidi" && len(sp.Msgs) > 0 && sp.Fault.Kind == "" && !sp.PingPong && sc.Knobs.MaxRecv >= 256 && r.Chance(1, 8) {
+		k := r.Intn(len(sp.Msgs))
+		sc.Reqs[0].Msgs[k] = MsgSpec{Size: sc.Knobs.MaxRecv + r.Pick(1, 7, 100, sc.Knobs.MaxRecv), Seed: r.U64() >> 8, Over: true}
+	}
 	return sc
 }
 
@@ -450,6 +456,12 @@ func oracleStream(prop string, mr *muxRun, rs *reqState, cnt *[core.NumCounters]
 		if rs.httpReq != nil && rs.httpReq.Method == "GET" && sp.Proto == "http" {
 			nComplete = len(sp.Msgs) // no body: the message is reconstructed from the path alone
 		}
+		overIdx := -1
+		for i, m := range sp.Msgs {
+			if m.Over && overIdx < 0 {
+				overIdx = i
+			}
+		}
 		compressedCut := sp.Proto == "http" && sp.Compress && (fault == "cut" || fault == "readerr") && rs.end < len(rs.wire)
 		if sp.Proto == "http" && sp.Compress && !compressedCut {
 			nComplete = len(sp.Msgs)
@@ -500,6 +512,13 @@ func oracleStream(prop string, mr *muxRun, rs *reqState, cnt *[core.NumCounters]
 				if fault == "abort" && rs.abortedAt >= 0 && rs.ioBrokenAt >= 0 && sp.Proto != "ws" && rs.method.ClientS && l.RecvEOF && l.RecvErr == nil && rs.q.inPendingAt != -1 && !(sp.Proto == "http" && sp.Compress) {
 					return fail("abort-as-eof", "the client went away at step %d without having half-closed (%d of %d bytes sent), yet the handler's Recv ended with a clean io.EOF after %d messages", rs.ioBrokenAt, rs.sent, len(rs.wire), len(l.Recv))
 				}
+			case overIdx >= 0 && fault == "" && l.RecvErr != nil && l.RecvErr != io.EOF:
+				// the over-limit message was refused (C08's subject): everything
+				// before it must have arrived, nothing of it or after it
+				cnt[cOverLimitRefused]++
+				if len(l.Recv) != overIdx {
+					return fail("recv-missing-message", "message #%d is larger than the receive limit once inflated and was refused (%v), but the handler had received %d messages before that", overIdx, l.RecvErr, len(l.Recv))
+				}
 			case compressedCut:
 				if l.RecvErr == nil {
 					return fail("truncation-as-eof", "compressed request body cut at %d of %d bytes ended with a clean EOF after %d messages", rs.end, len(rs.wire), len(l.Recv))
@@ -536,6 +555,11 @@ func oracleStream(prop string, mr *muxRun, rs *reqState, cnt *[core.NumCounters]
 	viaBackend := l == &rs.blog // the script ran on a backend behind the proxy (not on a local handler of the same method)
 	// (a gzip body cut anywhere short of its end is a broken stream too)
 	cutBroken := rs.cutMid || sp.Proto == "http" && sp.Compress && rs.end < len(rs.wire)
+	for _, m := range sp.Msgs {
+		if m.Over && l.RecvErr != nil {
+			writeFault = true // the call was failed over its size: what the client is told is C08's and C05's subject
+		}
+	}
 	if viaBackend && (fault == "readerr" || fault == "cut" && cutBroken) {
 		// the request side of a proxied stream broke: the proxy ends the
 		// backend call, so what the backend still manages to send and which
